@@ -76,6 +76,20 @@ CLAIMS['C16'] = ('other',
     'not shipped: targets in them are not checked); PLY; the pysnmp template. Not decided: the pairing lemma "trees that '
     'differ only by the transliteration give equal records" is not stated as one obligation - it is the conjunction of the '
     'per-function contracts. D35 (RFC1158-MIB table) found by a table lemma and fixed.', '5 C16')
+CLAIMS['C14'] = ('other',
+    'Proved for all inputs: AbstractReader.getMibVariants, executed for every setting of the four matching flags with a '
+    'symbolic module name and symbolic extensions - every offered file name is an alias plus a requested extension, every '
+    'alias is one of the documented variants (as given, upper, lower, -MIB suffixed, or a prefix of one of them under fuzzy '
+    'matching), the name as given comes first, nothing else is offered when matching is off, no exception (D37 found and '
+    'fixed); FileReader.getMibVariants - an .index entry is the only variant. BOUNDED, not proved (zipfile, os and urlparse '
+    'are outside the verifier): the real ZipReader on every archive of a small scope nested to depth 3 (a member named like '
+    'a variant is found at any depth, returned text and mtime are that member\'s, nothing unrelated is returned; D36 found '
+    'and fixed), the real FileReader on small directory trees with sub-directories, same-named directories and .index '
+    'files, getReadersFromUrls on 8 schemes x 5 path shapes.',
+    'Trusted: zipfile, os, urlparse, str.upper/lower (uninterpreted in the proof). Not decided: network readers; the '
+    'order in which sub-directories are visited (os.listdir order) - the bounded clauses accept any file named like a '
+    'variant; D9 (the fuzzy rule cuts at the first -mib, not at a trailing one) is within what the alias clause allows. '
+    'Outside the bounded scopes nothing is claimed.', '5 C14')
 CLAIMS['C13'] = ('proof',
     'FileWriter.putData, PyFileWriter.putData and CallbackWriter.putData are executed symbolically against an OS model '
     'in which every system call may fail (and os.write may fall short) adversarially; atomicity, temp-file cleanup, '
